@@ -169,14 +169,19 @@ CHECKS = {
     "C02": (True,
             "Gallina transcription of ReadFromWebVTT (header loop, block state machine, NOTE/STYLE/Region blocks, cue settings, "
             "X-TIMESTAMP-MAP), parseTextWebVTT (tag stack with classes/annotations, voices, inline timestamps, over a model of the "
-            "x/net/html tokenizer) and WriteToWebVTT. Theorems: reader and writer total for every input; reader schedule-independent "
-            "and fault-reporting; nothing-to-write; writer bytes independent of the iteration order of the style/region maps. "
+            "x/net/html tokenizer) and WriteToWebVTT. Theorems for ALL representable documents (no size bound): write then read returns "
+            "the document (cues numbered 1..n, times to the millisecond, settings/regions with fallbacks resolved, STYLE, timestamp map, "
+            "comments, voices, tag stacks with classes and annotations, inline timestamps); written lines parse back to their runs and lie "
+            "inside the tokenizer model's faithful domain; regions are defined before use in what is written and in any accepted input; "
+            "LF/CRLF/CR equivalence; reader and writer total; reader schedule-independent and fault-reporting; nothing-to-write; writer "
+            "bytes independent of the iteration order of the style/region maps. "
             "Tie: reader values, writer bytes and single-line parses compared with the extracted model on generated documents "
             "(regions, STYLE, timestamp map, comments, settings, tag stacks of depth 0..3, timestamps, voices x EOL/BOM/short time "
             "forms/ids/tabs), mutated documents and repository samples. Oracles: ground truth for the reader; an independent WebVTT "
             "decoder and the reader for the writer (consecutive numbering, regions defined before use).",
-            "Rocq proof over a Gallina codec model (round-trip theorem in progress) + extracted-model differential correspondence + independent decoder",
-            "the write/read fidelity theorem over the model is not in this development yet; x/net/html tokenizer and the two regular "
+            "Rocq proof over a Gallina codec model + extracted-model differential correspondence + independent decoder",
+            "representability side conditions are those of repr_vdoc/repr_vline (Proofs/VttDoc.v, VttLine.v); reading tolerance beyond EOL "
+            "(short time forms, ids, tabs, header text) is decided by the ground-truth oracle and the correspondence; x/net/html tokenizer and the two regular "
             "expressions are hand-written matchers compared with the library inside the faithful domain html_simple/vtt_tag_simple "
             "(outside it only the Ok/Err/Panic class is compared)."),
 }
